@@ -11,6 +11,7 @@ from .async_locator import GeckoAsyncLocator
 from .async_spa import GeckoAsyncSpa
 from .async_spa_descriptor import GeckoAsyncSpaDescriptor
 from .async_tasks import AsyncTasks
+from .config import GeckoConfig, config_sleep
 from .const import GeckoConstants
 from .spa_events import GeckoSpaEvent
 from .spa_state import GeckoSpaState
@@ -544,6 +545,13 @@ class GeckoAsyncSpaMan(ABC, AsyncTasks):
                         await self.async_connect(
                             self._spa_identifier, self._spa_address
                         )
+
+                    if self.spa_state == GeckoSpaState.ERROR_SPA_NOT_FOUND:
+                        # The spa may only be unreachable for now, so look again
+                        # after a while
+                        await config_sleep(GeckoConfig.DISCOVERY_TIMEOUT_IN_SECONDS)
+                        if self.spa_state == GeckoSpaState.ERROR_SPA_NOT_FOUND:
+                            await self.async_reset()
 
                 except asyncio.CancelledError:
                     raise
